@@ -346,7 +346,7 @@ CHECKS["C14"] = {
              "(array_init on full / partial ranges, stores at constant indices 0/4/8, at the symbolic index i and i+4, range stores, array_assign, "
              "loads at constant and symbolic indices, i:=0, i:=i+4, i:=nondet{0,4,8}, x:=x+1, the strong-update store on S, save / join / widening "
              "with the saved state) + 18 extended operations (second array, range stores with symbolic bounds, assumes on i, meet, swap). All "
-             "histories of depth <=4 (core) and <=3 (everything) with subtree pruning on identical (abstract state, "
+             "histories of depth <=4 (core; 5 thorough) and <=3 (everything) with subtree pruning on identical (abstract state, "
              "witness set) pairs; 7 domains (array_smashing over intervals / zones / disjunctive intervals, array_adaptive over intervals / "
              "zones / flat-boolean / term) x 1-4 (16) array_adaptive parameter tuples (is_smashable, smash_at_nonzero_offset, max_smashable_cells, "
              "max_array_size in {0,1/2,64}). Clauses: a state with a concrete witness is never bottom, also not after a load; scalars of every "
